@@ -90,6 +90,9 @@ func initTimeIntrinsics() {
 		return mkTime(t), true
 	})
 	reg("time.Unix", func(fr *frame, a []value) (value, bool) {
+		if !isSym(a[0]) && asInt64(a[0]) == 0 && isSym(a[1]) {
+			return mkTime(a[1]), true // time.Unix(0, ns): the instant itself in the abstract model
+		}
 		if anySym(a) {
 			panic(engineError("time.Unix with symbolic arguments"))
 		}
